@@ -263,6 +263,10 @@ class DriverActor(actor.RallyActor):
             else:
                 self.logger.error("Worker [%d] has exited prematurely. Aborting benchmark.", worker_index)
                 self.send(self.benchmark_actor, actor.BenchmarkFailure(f"Worker [{worker_index}] has exited prematurely."))
+        elif msg.childAddress in self.children and self.status != "exiting":
+            # track preparators are only asked to exit (and removed from self.children) after the track has been prepared
+            self.logger.error("A track preparator has exited prematurely. Aborting benchmark.")
+            self.send(self.benchmark_actor, actor.BenchmarkFailure("A track preparator has exited prematurely."))
         else:
             self.logger.debug("A track preparator has exited.")
 
@@ -475,10 +479,18 @@ class TrackPreparationActor(actor.RallyActor):
         self.cfg: Optional[types.Config] = None
         self.data_root_dir = None
         self.track = None
+        self.exiting = False
 
     def receiveMsg_PoisonMessage(self, poisonmsg, sender):
         self.logger.error("Track Preparator received a fatal indication from a load generator (%s). Shutting down.", poisonmsg.details)
         self.send(self.driver_actor, actor.BenchmarkFailure("Fatal track preparation indication", poisonmsg.details))
+
+    def receiveMsg_ChildActorExited(self, msg, sender):
+        if self.exiting:
+            self.logger.debug("A track preparation worker has exited.")
+        else:
+            self.logger.error("A track preparation worker has exited prematurely. Aborting benchmark.")
+            self.send(self.driver_actor, actor.BenchmarkFailure("A track preparation worker has exited prematurely."))
 
     @actor.no_retry("track preparator")  # pylint: disable=no-value-for-parameter
     def receiveMsg_Bootstrap(self, msg, sender):
@@ -492,6 +504,7 @@ class TrackPreparationActor(actor.RallyActor):
     @actor.no_retry("track preparator")  # pylint: disable=no-value-for-parameter
     def receiveMsg_ActorExitRequest(self, msg, sender):
         self.logger.debug("ActorExitRequest received. Forwarding to children")
+        self.exiting = True
         for child in self.children:
             self.send(child, msg)
 
